@@ -3,6 +3,7 @@ package config
 import (
 	"fmt"
 	"strconv"
+	"strings"
 	"time"
 
 	"github.com/hashicorp/go-multierror"
@@ -347,10 +348,26 @@ func (cv1 *HookConfigV1) ConvertSchedule(schV1 ScheduleConfigV1) (htypes.Schedul
 	return res, nil
 }
 
+// checkCrontab parses the crontab. A step of zero ("*/0", "1-5/0") is rejected
+// here: the cron parser does not return for it (its range loop never advances).
+func checkCrontab(crontab string) error {
+	for _, field := range strings.Fields(crontab) {
+		for _, part := range strings.Split(field, ",") {
+			if idx := strings.Index(part, "/"); idx >= 0 {
+				if step, err := strconv.ParseUint(part[idx+1:], 10, 64); err == nil && step == 0 {
+					return fmt.Errorf("step of a crontab field should be a positive number: '%s'", part)
+				}
+			}
+		}
+	}
+	_, err := cron.Parse(crontab)
+	return err
+}
+
 func (cv1 *HookConfigV1) CheckSchedule(kubeConfigs []htypes.OnKubernetesEventConfig, schV1 ScheduleConfigV1) error {
 	var allErr error
 
-	if _, err := cron.Parse(schV1.Crontab); err != nil {
+	if err := checkCrontab(schV1.Crontab); err != nil {
 		allErr = multierror.Append(allErr, fmt.Errorf("crontab is invalid: %w", err))
 	}
 
